@@ -656,7 +656,7 @@ func callWorker(req N) (resp N) {
 		}),
 	}
 	opts := []risor.Option{risor.WithConcurrency(), risor.WithLocalImporter(modDir), risor.WithGlobals(globals)}
-	if src == "withos" {
+	if src == "withos" || src == "withoswarm" {
 		opts = append(opts, risor.WithOS(host))
 	}
 	rec.add(event{E: "start", K: src})
@@ -681,7 +681,26 @@ func callWorker(req N) (resp N) {
 		}
 		machine = vm.New(code, cfg.VMOpts()...)
 		var res object.Object
-		if src == "ctxwarm" {
+		if src == "withoswarm" {
+			// the VM first ran under ANOTHER host OS (same parent context value), then the host supplies
+			// its OS with the WithOS option of the next run: nothing of the first run may stick
+			otherOS := ros.NewVirtualOS(baseCtx, ros.WithStdout(ros.NewBufferFile(nil)),
+				ros.WithEnvironment(map[string]string{"VERIF_SENTINEL": "OTHER-env"}), ros.WithCwd("/"))
+			wcfg := risor.NewConfig(risor.WithConcurrency(), risor.WithLocalImporter(modDir), risor.WithGlobals(globals), risor.WithOS(otherOS))
+			warm, werr := rparser.Parse(baseCtx, "getenv(\"VERIF_SENTINEL\")")
+			if werr == nil {
+				var wcode *compiler.Code
+				if wcode, werr = compiler.Compile(warm, wcfg.CompilerOpts()...); werr == nil {
+					machine = vm.New(wcode, wcfg.VMOpts()...)
+					werr = machine.Run(baseCtx)
+				}
+			}
+			if werr != nil {
+				status, msg = "nocompile", "warm-up: "+werr.Error()
+				return
+			}
+			err = machine.RunCode(baseCtx, code, cfg.VMOpts()...)
+		} else if src == "ctxwarm" {
 			// the VM is used once with no OS at all (no option, plain context) before the host supplies
 			// its OS in the context: run a trivial code object, then the script
 			warm, werr := rparser.Parse(baseCtx, "1")
